@@ -265,6 +265,12 @@ theorem RelInv.of_metaStep {w w' : World} (h : RelInv w) (ms : MetaStep w w')
     (hal : ∀ (e : Ent), w.alive e = true → w'.alive e = true) : RelInv w' :=
   h.of_sameMeta ms.archetypes ms.kinds ms.relationArchetypes ms.cache ms.len ms.tmeta hal
 
+/-- … when liveness is kept inside the pool slice only (creation of an entity) -/
+theorem RelInv.of_metaStep_in {w w' : World} (h : RelInv w) (hin : TargetsIn w) (ms : MetaStep w w')
+    (hal : ∀ (e : Ent), e.id < w.pool.ents.length → w.alive e = true → w'.alive e = true) :
+    RelInv w' :=
+  h.of_sameMeta_in hin ms.archetypes ms.kinds ms.relationArchetypes ms.cache ms.len ms.tmeta hal
+
 theorem FlagsOKUpTo.of_metaStep {w w' : World} {rels : List RelID} (h : FlagsOKUpTo w rels)
     (ms : MetaStep w w')
     (hfl : ∀ (i : Nat), w.isTarget.getD i false = true → w'.isTarget.getD i false = true) :
@@ -486,7 +492,8 @@ structure NewRelPost (w : World) (fl : List Nat) (rels : List RelID) (e : Ent) (
   ge2 : 2 ≤ e.id
   notin : e.id ∉ fl.tail
   alive : w'.alive e = true
-  aliveMono : ∀ (h : Ent), w.alive h = true → w'.alive h = true
+  /-- (inside the pool slice; `getNew` overwrites the first cell of the memory behind it) -/
+  aliveMono : ∀ (h : Ent), h.id < w.pool.ents.length → w.alive h = true → w'.alive h = true
   aliveFrame : ∀ (h : Ent), h.id ≠ e.id → w'.alive h = w.alive h
   /-- an accepted call named only zero or alive targets -/
   valid : ∀ (r : RelID), r ∈ rels → r.target.isZero = true ∨ w.alive r.target = true
@@ -500,10 +507,10 @@ structure NewRelPost (w : World) (fl : List Nat) (rels : List RelID) (e : Ent) (
   tablesLen : w'.tables.length ≤ w.tables.length + 1
   entitiesLen : w'.entities.length ≤ w.entities.length + 1
 
-/-- **C04, creation**: an accepted `NewEntity(ids…, rels…)` through any path — `rels` names
-    relation components among `ids`, none twice — keeps all invariants, gives the new entity the
-    targets named, and changes no other entity (no observers registered). -/
-theorem opNewEntity_rel_spec (run : ProbeRunner) (p : Path) {w : World} {fl : List Nat}
+/-- the two halves of `opNewEntity_rel_valid` / `opNewEntity_rel_spec` in one proof: an accepted
+    call named only zero or alive targets (whatever their IDs), and — if the IDs of the targets lie
+    inside the pool slice — `NewRelPost` -/
+theorem opNewEntity_rel_core (run : ProbeRunner) (p : Path) {w : World} {fl : List Nat}
     (h : TInv w fl) (hl : w.isLocked = false) (hno : ∀ (evt : Nat), w.obs.hasObservers evt = false)
     {ids : List Comp} {vals : List (Comp × Val)} {rels : List RelID}
     (hreg : ∀ (c : Comp), c ∈ ids → c < w.kinds.length)
@@ -511,7 +518,8 @@ theorem opNewEntity_rel_spec (run : ProbeRunner) (p : Path) {w : World} {fl : Li
     (hrc : ∀ (r : RelID), r ∈ rels → w.isRelComp r.comp = true)
     (hfew : w.tables.length < maxU32) (hrows : w.entities.length + 1 < 2 ^ 32)
     {e : Ent} {w' : World} (hok : opNewEntity run p ids vals rels w = .ok e w') :
-    NewRelPost w fl rels e w' := by
+    (∀ (r : RelID), r ∈ rels → r.target.isZero = true ∨ w.alive r.target = true) ∧
+    ((∀ (r : RelID), r ∈ rels → r.target.id < w.pool.ents.length) → NewRelPost w fl rels e w') := by
   -- 1. the pre-validation passed
   have hpre : preCheck p ids rels w = .ok () w := by
     rcases preCheck_cases p ids rels w with h1 | ⟨k, h1⟩
@@ -571,9 +579,12 @@ theorem opNewEntity_rel_spec (run : ProbeRunner) (p : Path) {w : World} {fl : Li
       obtain ⟨i, _, h2, h3⟩ := hcolOf r hr
       have := ar.rel.aux.targets t _ hTt foc.tblFree i h2
       rw [h3, hal1] at this; exact this
+    refine ⟨hvalid, fun htin => ?_⟩
     -- the invariants
     have rel4 : RelInv (writeValsW (registerW (placedW w1 t false) rels) (w1.pool.get).2 vals) :=
-      ar.rel.of_metaStep ((ms2.trans ms3).trans ms4) (fun x hx => by rw [hal4]; exact pp.aliveMono x hx)
+      ar.rel.of_metaStep_in
+        (ar.flags.targetsIn (link1.tgtLen.trans link1.lenEq) (fun r hr => by rw [foc.pool]; exact htin r hr))
+        ((ms2.trans ms3).trans ms4) (fun x hxin hx => by rw [hal4]; exact pp.aliveMono x hxin hx)
     have hflag2 : FlagsOKUpTo (placedW w1 t false) rels :=
       ar.flags.of_metaStep ms2 (placedW_flags_mono w1 t)
     have hit2 : w1.isTarget.length ≤ (placedW w1 t false).isTarget.length := by
@@ -589,7 +600,7 @@ theorem opNewEntity_rel_spec (run : ProbeRunner) (p : Path) {w : World} {fl : Li
       intro r hr hz
       rcases hvalid r hr with h1 | h1
       · rw [h1] at hz; cases hz
-      · have := h.link.alive_lt h1
+      · have := h.link.lt_of_in (htin r hr)
         rw [← h.link.tgtLen, ← hu.isTarget] at this
         omega
     have hflag4 : FlagsOK (writeValsW (registerW (placedW w1 t false) rels) (w1.pool.get).2 vals) :=
@@ -639,7 +650,8 @@ theorem opNewEntity_rel_spec (run : ProbeRunner) (p : Path) {w : World} {fl : Li
         ge2 := pp.ge2
         notin := pp.notin
         alive := by rw [hal4]; exact pp.alive
-        aliveMono := fun x hx => by rw [hal4]; exact pp.aliveMono x (by rw [hal1]; exact hx)
+        aliveMono := fun x hxin hx => by
+          rw [hal4]; exact pp.aliveMono x (by rw [foc.pool]; exact hxin) (by rw [hal1]; exact hx)
         aliveFrame := fun x hx => by rw [hal4, pp.aliveFrame x hx, hal1]
         valid := hvalid
         targets := ?_
@@ -677,5 +689,35 @@ theorem opNewEntity_rel_spec (run : ProbeRunner) (p : Path) {w : World} {fl : Li
       rw [← g1 c]
       have hms := (ms2.trans ms3).trans ms4
       exact hms.targetOf (by rw [hE4, pp.lookup, if_neg hj]) c
+
+/-- **an accepted `NewEntity(ids…, rels…)` named only zero or alive targets** (no condition on
+    the IDs of the targets) -/
+theorem opNewEntity_rel_valid (run : ProbeRunner) (p : Path) {w : World} {fl : List Nat}
+    (h : TInv w fl) (hl : w.isLocked = false) (hno : ∀ (evt : Nat), w.obs.hasObservers evt = false)
+    {ids : List Comp} {vals : List (Comp × Val)} {rels : List RelID}
+    (hreg : ∀ (c : Comp), c ∈ ids → c < w.kinds.length)
+    (hnd : (rels.map (·.comp)).Nodup) (hin : ∀ (r : RelID), r ∈ rels → r.comp ∈ ids)
+    (hrc : ∀ (r : RelID), r ∈ rels → w.isRelComp r.comp = true)
+    (hfew : w.tables.length < maxU32) (hrows : w.entities.length + 1 < 2 ^ 32)
+    {e : Ent} {w' : World} (hok : opNewEntity run p ids vals rels w = .ok e w') :
+    ∀ (r : RelID), r ∈ rels → r.target.isZero = true ∨ w.alive r.target = true :=
+  (opNewEntity_rel_core run p h hl hno hreg hnd hin hrc hfew hrows hok).1
+
+/-- **C04, creation**: an accepted `NewEntity(ids…, rels…)` through any path — `rels` names
+    relation components among `ids`, none twice, with targets whose IDs lie inside the pool slice
+    (`htin`; every handle the world has issued does; see `forged_target_after_reset` in
+    `Ark/Props/C05Rel.lean` for what a forged target behind the slice does after a `Reset`) — keeps all invariants, gives the new
+    entity the targets named, and changes no other entity (no observers registered). -/
+theorem opNewEntity_rel_spec (run : ProbeRunner) (p : Path) {w : World} {fl : List Nat}
+    (h : TInv w fl) (hl : w.isLocked = false) (hno : ∀ (evt : Nat), w.obs.hasObservers evt = false)
+    {ids : List Comp} {vals : List (Comp × Val)} {rels : List RelID}
+    (hreg : ∀ (c : Comp), c ∈ ids → c < w.kinds.length)
+    (hnd : (rels.map (·.comp)).Nodup) (hin : ∀ (r : RelID), r ∈ rels → r.comp ∈ ids)
+    (hrc : ∀ (r : RelID), r ∈ rels → w.isRelComp r.comp = true)
+    (htin : ∀ (r : RelID), r ∈ rels → r.target.id < w.pool.ents.length)
+    (hfew : w.tables.length < maxU32) (hrows : w.entities.length + 1 < 2 ^ 32)
+    {e : Ent} {w' : World} (hok : opNewEntity run p ids vals rels w = .ok e w') :
+    NewRelPost w fl rels e w' :=
+  (opNewEntity_rel_core run p h hl hno hreg hnd hin hrc hfew hrows hok).2 htin
 
 end Ark
